@@ -12,8 +12,9 @@
      internal/http/server/object_read.go  listAndFilterParts                         -> parts_http
    A client that follows NextMarker / NextContinuationToken / NextPartNumberMarker   -> client_follow
 
-   ASCII keys: SQLite's LIKE folds case for ASCII letters only and `_` consumes one character,
-   which is one byte for ASCII. *)
+   Keys are valid UTF-8: SQLite's LIKE folds case for ASCII letters only and `_` consumes one
+   character (lead byte plus continuation bytes).
+   Second part: ListObjectVersions and ListMultipartUploads (storage + HTTP), see below. *)
 From Verif Require Import Bytes Codec.
 
 (* ---------------------------------------------------------------- byte-string order ------ *)
@@ -128,17 +129,34 @@ Definition pct : byte := "%"%byte.
 Definition usc : byte := "_"%byte.
 Definition eq_nocase (a b : byte) : bool := beqb (lower_byte a) (lower_byte b).
 
+(* continuation bytes 10xxxxxx of a multi-byte UTF-8 character *)
+Definition is_cont (b : byte) : bool := let n := byteN b in (128 <=? n)%N && (n <? 192)%N.
+Fixpoint drop_cont (s : bytes) : bytes :=
+  match s with
+  | x :: s' => if is_cont x then drop_cont s' else s
+  | [] => []
+  end.
+Definition at_char_boundary (s : bytes) : bool :=
+  match s with [] => true | x :: _ => negb (is_cont x) end.
+
+(* '_' consumes one CHARACTER (lead byte and its continuation bytes); '%' tries every character
+   boundary *)
 Fixpoint like (p s : bytes) : bool :=
   match p with
   | [] => is_nil s
   | c :: p' =>
       if beqb c pct then
         (fix any (s : bytes) : bool :=
-           like p' s || match s with [] => false | _ :: s' => any s' end) s
+           (at_char_boundary s && like p' s) || match s with [] => false | _ :: s' => any s' end) s
+      else if beqb c usc then
+        match s with
+        | [] => false
+        | _ :: s' => like p' (drop_cont s')
+        end
       else
         match s with
         | [] => false
-        | x :: s' => (beqb c usc || eq_nocase c x) && like p' s'
+        | x :: s' => eq_nocase c x && like p' s'
         end
   end.
 (* key LIKE $2 || '%' *)
@@ -325,6 +343,294 @@ Definition parts_spec_page (parts : list N) (marker : option N) (max : nat) : li
            end in
   (firstn max a, max <? length a).
 
+(* ================================================================ versions & uploads ==== *)
+(* anchors: sqlite.go findObjectVersions...Stmt / findObjects...KeyMarkerAndUploadIdMarker...Stmt,
+   object_read.go ListObjectVersions, multipart.go ListMultipartUploads,
+   versioning.go listObjectVersionsHandler, bucket.go listAndFilterMultipartUploads *)
+Record vrow := { vr_key : bytes; vr_vid : bytes; vr_dm : bool; vr_seq : nat }.
+Definition null_vid : bytes := B"null".
+(* COALESCE(NULLIF(version_id,'null'),'') *)
+Definition nv (vid : bytes) : bytes := if bytes_eqb vid null_vid then [] else vid.
+
+(* canonical ids: the harness replaces the i-th generated ULID by this token (ULIDs of one process
+   increase monotonically, so byte order = creation order on both sides) *)
+Definition digit (n : nat) : byte := Nbyte (48 + N.of_nat (n mod 10)).
+Definition pad3 (i : nat) : bytes := [digit (i / 100); digit (i / 10); digit i].
+Definition vid_of_index (i : nat) : bytes := "v"%byte :: pad3 i.
+Definition uid_of_index (i : nat) : bytes := "u"%byte :: pad3 i.
+
+(* write history that builds the bucket: HU put while unversioned, HP/HD put/delete while
+   versioning is Enabled, HS put while Suspended (null version overwritten in place), HM
+   CreateMultipartUpload *)
+Inductive hop := HU (k : bytes) | HP (k : bytes) | HD (k : bytes) | HS (k : bytes) | HM (k : bytes).
+Definition put_null (k : bytes) (i : nat) (rows : list vrow) : list vrow :=
+  filter (fun r => negb (bytes_eqb (vr_key r) k && bytes_eqb (vr_vid r) null_vid)) rows
+  ++ [{| vr_key := k; vr_vid := null_vid; vr_dm := false; vr_seq := i |}].
+Fixpoint run_history (i : nat) (ops : list hop) (rows : list vrow) (ups : list (bytes * bytes))
+  : list vrow * list (bytes * bytes) :=
+  match ops with
+  | [] => (rows, ups)
+  | op :: rest =>
+      match op with
+      | HU k | HS k => run_history (S i) rest (put_null k i rows) ups
+      | HP k => run_history (S i) rest (rows ++ [{| vr_key := k; vr_vid := vid_of_index i; vr_dm := false; vr_seq := i |}]) ups
+      | HD k => run_history (S i) rest (rows ++ [{| vr_key := k; vr_vid := vid_of_index i; vr_dm := true; vr_seq := i |}]) ups
+      | HM k => run_history (S i) rest rows (ups ++ [(k, uid_of_index i)])
+      end
+  end.
+
+Fixpoint insert_by {A} (cmp : A -> A -> comparison) (x : A) (l : list A) : list A :=
+  match l with
+  | [] => [x]
+  | y :: l' => match cmp x y with Gt => y :: insert_by cmp x l' | _ => x :: l end
+  end.
+Definition sort_by {A} (cmp : A -> A -> comparison) (l : list A) : list A := fold_right (insert_by cmp) [] l.
+
+(* ---------------- specification ---------------- *)
+(* S3: versions of all keys with the prefix, by key ascending and, within a key, most recent first;
+   keys containing the delimiter after the prefix are rolled up (all their versions) into one
+   CommonPrefix; a page = first max entries after the entry named by the markers *)
+Inductive ventry := VEnt (k vid : bytes) (dm : bool) | VCP (p : bytes).
+Definition spec_vcmp (a b : vrow) : comparison :=
+  match bcmp (vr_key a) (vr_key b) with
+  | Eq => Nat.compare (vr_seq b) (vr_seq a)
+  | c => c
+  end.
+Definition ventry_eqb (a b : ventry) : bool :=
+  match a, b with
+  | VEnt k v d, VEnt k' v' d' => bytes_eqb k k' && bytes_eqb v v' && Bool.eqb d d'
+  | VCP p, VCP p' => bytes_eqb p p'
+  | _, _ => false
+  end.
+Fixpoint dedup_ventries (l : list ventry) (seen : list ventry) : list ventry :=
+  match l with
+  | [] => []
+  | e :: l' => if existsb (ventry_eqb e) seen then dedup_ventries l' seen
+               else e :: dedup_ventries l' (e :: seen)
+  end.
+Definition vclassify (prefix delim : bytes) (r : vrow) : ventry :=
+  match classify prefix delim (vr_key r) with
+  | ECP p => VCP p
+  | EKey _ => VEnt (vr_key r) (vr_vid r) (vr_dm r)
+  end.
+Definition spec_ventries (rows : list vrow) (prefix delim : bytes) : list ventry :=
+  dedup_ventries (map (vclassify prefix delim)
+                      (sort_by spec_vcmp (filter (fun r => is_prefix prefix (vr_key r)) rows))) [].
+
+(* the part of a list after the first element satisfying [p] (everything if there is none) *)
+Fixpoint after_first {A} (p : A -> bool) (l : list A) : list A :=
+  match l with
+  | [] => []
+  | x :: l' => if p x then l' else after_first p l'
+  end.
+Definition has {A} (p : A -> bool) (l : list A) : bool := existsb p l.
+
+(* the entry a (key-marker, version-id-marker) pair names *)
+Definition vmarks (km vm : bytes) (e : ventry) : bool :=
+  match e with
+  | VEnt k v _ => bytes_eqb k km && bytes_eqb v vm
+  | VCP p => bytes_eqb p km
+  end.
+Definition vafter (marker : option (bytes * bytes)) (l : list ventry) : list ventry :=
+  match marker with
+  | None => l
+  | Some (km, vm) => after_first (vmarks km vm) l
+  end.
+Definition vnext (e : ventry) : bytes * bytes :=
+  match e with VEnt k v _ => (k, v) | VCP p => (p, []) end.
+
+Section FollowByIdentity.
+  Context {A : Type} (mark : A -> A -> bool).
+  (* follow "the marker of a page is its last entry" until a page is not truncated *)
+  Fixpoint follow_ident (fuel : nat) (l : list A) (marker : option A) (max : nat) : list A :=
+    match fuel with
+    | O => []
+    | S f =>
+        let a := match marker with None => l | Some m => after_first (mark m) l end in
+        let pg := firstn max a in
+        if max <? length a then
+          match last_opt pg with
+          | Some e => pg ++ follow_ident f l (Some e) max
+          | None => pg
+          end
+        else pg
+    end.
+End FollowByIdentity.
+
+(* ---------------- ListObjectVersions, faithful ---------------- *)
+Definition sql_vcmp (a b : vrow) : comparison :=
+  match bcmp (vr_key a) (vr_key b) with
+  | Eq => bcmp (nv (vr_vid b)) (nv (vr_vid a))
+  | c => c
+  end.
+(* key > $4 OR (key = $4 AND nv(version_id) < nv($5)) *)
+Definition sql_vafter (km vm : bytes) (r : vrow) : bool :=
+  bltb km (vr_key r) || (bytes_eqb (vr_key r) km && bltb (nv (vr_vid r)) (nv vm)).
+Definition sql_vrows (rows : list vrow) (prefix km vm : bytes) : list vrow :=
+  sort_by sql_vcmp (filter (fun r => like_prefix prefix (vr_key r) && sql_vafter km vm r) rows).
+
+Record vres := { v_out : list vrow; v_cps : list bytes; v_trunc : bool; v_next : option (bytes * bytes) }.
+
+(* the entity loop of sqlMetadataStore.ListObjectVersions *)
+Fixpoint vloop (prefix delim : bytes) (max : nat) (ents : list vrow) (out : list vrow)
+  (cps : list bytes) (emitted : nat) (last : option (bytes * bytes)) : vres :=
+  match ents with
+  | [] => {| v_out := out; v_cps := cps; v_trunc := false; v_next := None |}
+  | e :: rest =>
+      let here := Some (vr_key e, vr_vid e) in
+      match (if is_nil delim then None else common_prefix prefix (vr_key e) delim) with
+      | Some c =>
+          if mem_bytes c cps then vloop prefix delim max rest out cps emitted here
+          else if max <=? emitted then {| v_out := out; v_cps := cps; v_trunc := true; v_next := last |}
+          else vloop prefix delim max rest out (cps ++ [c]) (S emitted) here
+      | None =>
+          if max <=? emitted then {| v_out := out; v_cps := cps; v_trunc := true; v_next := last |}
+          else if is_nil delim || negb (contains delim (trim_prefix prefix (vr_key e)))
+               then vloop prefix delim max rest (out ++ [e]) cps (S emitted) here
+               else vloop prefix delim max rest out cps emitted last
+      end
+  end.
+
+Definition versions_list (rows : list vrow) (prefix delim : bytes) (marker : option (bytes * bytes))
+  (vmarker_only : option bytes) (max : nat) : vres :=
+  let m := eff_max max in
+  let km := match marker with Some (k, _) => k | None => [] end in
+  let vm := match marker with Some (_, v) => v | None => opt_default vmarker_only end in
+  let sorted := sql_vrows rows prefix km vm in
+  let ents := if is_nil delim then firstn (S m) sorted else sorted in
+  vloop prefix delim m ents [] [] 0 None.
+
+Fixpoint versions_follow (fuel : nat) (rows : list vrow) (prefix delim : bytes)
+  (marker : option (bytes * bytes)) (max : nat) : list vres :=
+  match fuel with
+  | O => []
+  | S f =>
+      let r := versions_list rows prefix delim marker None max in
+      r :: (if v_trunc r then
+              match v_next r with
+              | Some m => versions_follow f rows prefix delim (Some m) max
+              | None => []
+              end
+            else [])
+  end.
+
+Definition vres_entries (r : vres) : list ventry :=
+  map (fun x => VEnt (vr_key x) (vr_vid x) (vr_dm x)) (v_out r).
+
+(* ---------------- ListMultipartUploads, faithful ---------------- *)
+Definition urow := (bytes * bytes)%type.
+Definition ucmp (a b : urow) : comparison :=
+  match bcmp (fst a) (fst b) with Eq => bcmp (snd a) (snd b) | c => c end.
+(* key > $3 OR ($4 <> '' AND key = $3 AND upload_id > $4) *)
+Definition sql_uafter (km um : bytes) (r : urow) : bool :=
+  bltb km (fst r) || (negb (is_nil um) && bytes_eqb (fst r) km && bltb um (snd r)).
+Definition sql_urows (ups : list urow) (prefix km um : bytes) : list urow :=
+  sort_by ucmp (filter (fun r => like_prefix prefix (fst r) && sql_uafter km um r) ups).
+
+Record ures := { u_ups : list urow; u_cps : list bytes; u_trunc : bool; u_nextk : bytes; u_nextu : bytes }.
+
+Fixpoint uscan (prefix delim : bytes) (max : nat) (rows : list urow) (ups : list urow)
+  (cps : list bytes) (nk nu : bytes) : list urow * list bytes * bytes * bytes :=
+  match rows with
+  | [] => (ups, cps, nk, nu)
+  | r :: rest =>
+      let cps' := if is_nil delim then cps
+                  else match common_prefix prefix (fst r) delim with
+                       | Some c => add_cp cps c
+                       | None => cps
+                       end in
+      if length ups <? max then
+        let ups' := if is_nil delim || negb (contains delim (trim_prefix prefix (fst r)))
+                    then ups ++ [r] else ups in
+        uscan prefix delim max rest ups' cps' (fst r) (snd r)
+      else uscan prefix delim max rest ups cps' nk nu
+  end.
+
+(* sqlMetadataStore.ListMultipartUploads *)
+Definition uploads_storage (ups : list urow) (prefix delim km um : bytes) (max : nat) : ures :=
+  let rows := sql_urows ups prefix km um in
+  let ents := if is_nil delim then firstn max rows else rows in
+  let '(u, c, nk, nu) := uscan prefix delim max ents [] [] [] [] in
+  {| u_ups := u; u_cps := c; u_trunc := max <? length rows; u_nextk := nk; u_nextu := nu |}.
+
+Record uhres := { uh_ups : list urow; uh_cps : list bytes; uh_trunc : bool;
+                  uh_next : option (bytes * bytes) }.
+
+Fixpoint ufeed (max : nat) (collected ups : list urow) : list urow * option (urow * list urow) :=
+  match ups with
+  | [] => (collected, None)
+  | r :: rest =>
+      let c := collected ++ [r] in
+      if max <=? length c then (c, Some (r, rest)) else ufeed max c rest
+  end.
+
+(* Server.listAndFilterMultipartUploads (every upload authorised) *)
+Fixpoint uploads_loop (fuel : nat) (ups : list urow) (prefix delim : bytes) (max : nat)
+  (km um : option bytes) (collected : list urow) (cps : list bytes) : option uhres :=
+  match fuel with
+  | O => None
+  | S f =>
+      let r := uploads_storage ups prefix delim (opt_default km) (opt_default um) max in
+      match ufeed max collected (u_ups r) with
+      | (c, Some (lastr, rest)) =>
+          let more := negb (is_nil rest) || negb (is_nil (u_cps r)) || u_trunc r in
+          if more then Some {| uh_ups := c; uh_cps := cps; uh_trunc := true; uh_next := Some lastr |}
+          else Some {| uh_ups := c; uh_cps := cps; uh_trunc := false; uh_next := None |}
+      | (c, None) =>
+          let cps' := fold_left add_cp (u_cps r) cps in
+          let lastk := match last_opt (u_cps r) with
+                       | Some p => Some p
+                       | None => match last_opt (u_ups r) with Some x => Some (fst x) | None => km end
+                       end in
+          let lastu := match last_opt (u_cps r) with
+                       | Some _ => Some []
+                       | None => match last_opt (u_ups r) with Some x => Some (snd x) | None => um end
+                       end in
+          let done := Some {| uh_ups := c; uh_cps := cps'; uh_trunc := false; uh_next := None |} in
+          if negb (u_trunc r) then done
+          else match lastk, lastu with
+               | Some lk, Some lu =>
+                   if match km, um with
+                      | Some k0, Some u0 => bytes_eqb k0 lk && bytes_eqb u0 lu
+                      | _, _ => false
+                      end then done
+                   else uploads_loop f ups prefix delim max (Some lk) (Some lu) c cps'
+               | _, _ => done
+               end
+      end
+  end.
+
+Definition uploads_http (ups : list urow) (prefix delim : bytes) (km um : option bytes)
+  (max : nat) : option uhres :=
+  uploads_loop (2 * length ups + 5) ups prefix delim (eff_max max) km um [] [].
+
+Fixpoint uploads_follow (fuel : nat) (ups : list urow) (prefix delim : bytes)
+  (km um : option bytes) (max : nat) : list uhres :=
+  match fuel with
+  | O => []
+  | S f =>
+      match uploads_http ups prefix delim km um max with
+      | None => []
+      | Some r =>
+          r :: (if uh_trunc r then
+                  match uh_next r with
+                  | Some m => uploads_follow f ups prefix delim (Some (fst m)) (Some (snd m)) max
+                  | None => []
+                  end
+                else [])
+      end
+  end.
+
+(* the uploads specification: (key, upload id) ascending, rolled up at the delimiter *)
+Definition uclassify (prefix delim : bytes) (r : urow) : ventry :=
+  match classify prefix delim (fst r) with
+  | ECP p => VCP p
+  | EKey _ => VEnt (fst r) (snd r) false
+  end.
+Definition spec_uentries (ups : list urow) (prefix delim : bytes) : list ventry :=
+  dedup_ventries (map (uclassify prefix delim)
+                      (sort_by ucmp (filter (fun r => is_prefix prefix (fst r)) ups))) [].
+
 (* ================================================================ region predicates ===== *)
 (* decidable descriptions of the inputs on which SQLite's LIKE coincides with a byte-exact prefix
    test: no LIKE metacharacter in the prefix, and no key that differs from the prefix at some
@@ -371,6 +677,51 @@ Definition parse_optN (t : bytes) : option (option N) :=
 Definition show_pres (r : pres) : bytes :=
   join B"/" [show_nums (p_parts r); show_bool (p_trunc r); show_optN (p_next r)].
 
+(* versions / uploads:
+     VS|VH <history> <prefix> <delim> <keymarker> <vidmarker> <max>   ListObjectVersions followed to the end
+                                                                      (VS storage calls, VH HTTP)
+     US|UH <history> <prefix> <delim> <keymarker> <uidmarker> <max>   ListMultipartUploads (US one storage
+                                                                      call, UH HTTP followed to the end)
+     history: ops separated by ',' : u|p|d|s|m followed by the hex key ("_" = empty history)
+     markers: N | S<hex>; a version-id marker without key marker is sent as given
+   output (pages separated by '|'):
+     VS : entries/cps/trunc/nextkey/nextvid       entries = key:vid:dm,... in response order
+     VH : versions/deletemarkers/cps/trunc/nextkey/nextvid
+     US : uploads cps trunc nextkey nextuid        UH : uploads/cps/trunc/nextkey/nextuid *)
+Definition parse_hop (t : bytes) : option hop :=
+  match t with
+  | c :: k =>
+      match untok_bytes k with
+      | Some k =>
+          if beqb c "u"%byte then Some (HU k) else if beqb c "p"%byte then Some (HP k)
+          else if beqb c "d"%byte then Some (HD k) else if beqb c "s"%byte then Some (HS k)
+          else if beqb c "m"%byte then Some (HM k) else None
+      | None => None
+      end
+  | [] => None
+  end.
+Definition parse_history (t : bytes) : option (list hop) :=
+  if bytes_eqb t B"_" then Some [] else mapM parse_hop (split_on ","%byte t).
+
+Definition show_vrow (r : vrow) : bytes :=
+  join B":" [tok_bytes (vr_key r); vr_vid r; show_bool (vr_dm r)].
+Definition show_list (l : list bytes) : bytes := match l with [] => B"_" | _ => join B"," l end.
+Definition show_vres_s (r : vres) : bytes :=
+  join B"/" [show_list (map show_vrow (v_out r)); tok_list (v_cps r); show_bool (v_trunc r);
+             tok_opt (option_map fst (v_next r)); tok_opt (option_map snd (v_next r))].
+Definition show_vres_h (r : vres) : bytes :=
+  join B"/" [show_list (map show_vrow (filter (fun x => negb (vr_dm x)) (v_out r)));
+             show_list (map show_vrow (filter vr_dm (v_out r))); tok_list (v_cps r);
+             show_bool (v_trunc r);
+             tok_opt (option_map fst (v_next r)); tok_opt (option_map snd (v_next r))].
+Definition show_urow (r : urow) : bytes := tok_bytes (fst r) ++ B":" ++ snd r.
+Definition show_uhres (r : uhres) : bytes :=
+  join B"/" [show_list (map show_urow (uh_ups r)); tok_list (uh_cps r); show_bool (uh_trunc r);
+             tok_opt (option_map fst (uh_next r)); tok_opt (option_map snd (uh_next r))].
+Definition pair_marker (km vm : option bytes) : option (bytes * bytes) :=
+  match km with Some k => Some (k, opt_default vm) | None => None end.
+Definition hist_cap (ops : list hop) : nat := 2 * length ops + 3.
+
 Definition run_line (l : bytes) : bytes :=
   match tokens l with
   | [op; ks; p; d; m; mx] =>
@@ -379,13 +730,37 @@ Definition run_line (l : bytes) : bytes :=
       if bytes_eqb op B"S" then
         let r := storage_list keys prefix delim (opt_default marker) max in
         unwords [tok_list (s_objs r); tok_list (s_cps r); show_bool (s_trunc r)]
-      else if bytes_eqb op B"H1" || bytes_eqb op B"H2" then
+      else if bytes_eqb op B"H1" || bytes_eqb op B"H2" || bytes_eqb op B"H2b" || bytes_eqb op B"H2t" then
         show_pages (client_follow (page_cap keys) keys prefix delim marker max)
       else parse_error
   | [op; ps; m; mx] =>
       do parts <- parse_nums ps; do marker <- parse_optN m; do max <- parse_nat mx;
       if bytes_eqb op B"P" then
         join B"|" (map show_pres (parts_follow (length parts + 2) parts marker max))
+      else parse_error
+  | [op; hs; p; d; km; vm; mx] =>
+      do ops <- parse_history hs; do prefix <- untok_bytes p; do delim <- untok_bytes d;
+      do km <- untok_opt km; do vm <- untok_opt vm; do max <- parse_nat mx;
+      let '(rows, ups) := run_history 0 ops [] [] in
+      if bytes_eqb op B"VS" || bytes_eqb op B"VH" then
+        let first := versions_list rows prefix delim (pair_marker km vm)
+                                   (match km with None => vm | Some _ => None end) max in
+        let pages := first :: (if v_trunc first then
+                                 match v_next first with
+                                 | Some mk => versions_follow (hist_cap ops) rows prefix delim (Some mk) max
+                                 | None => []
+                                 end
+                               else []) in
+        join B"|" (map (if bytes_eqb op B"VS" then show_vres_s else show_vres_h) pages)
+      else if bytes_eqb op B"US" then
+        let r := uploads_storage ups prefix delim (opt_default km) (opt_default vm) max in
+        unwords [show_list (map show_urow (u_ups r)); tok_list (u_cps r); show_bool (u_trunc r);
+                 tok_bytes (u_nextk r); tok_bytes (u_nextu r)]
+      else if bytes_eqb op B"UH" then
+        match uploads_follow (hist_cap ops) ups prefix delim km vm max with
+        | [] => B"LOOP"
+        | pages => join B"|" (map show_uhres pages)
+        end
       else parse_error
   | _ => parse_error
   end.
